@@ -1065,6 +1065,11 @@ def direct_checks(case, obs):
     if "validation" in va:
         if va["called"]:
             out.append(("rejected-before-any-resolver-runs", None))
+    elif (str(va.get("crash", "")).startswith("user:") and "ok" not in ex
+          and case.get("label", "").startswith("user-exception")):
+        # the validator ran the raising user scalar on a literal that execution
+        # never reached (another argument was refused first): no kwargs either way
+        pass
     elif ("ok" in va) != ("ok" in ex) or va.get("ok") != ex.get("ok") or va.get("rej") != ex.get("rej"):
         out.append(("validated-and-unvalidated-requests-give-same-kwargs", None))
     tw = obs.get("twin")
